@@ -686,6 +686,11 @@ func actxGuarded(c *Ctx, e *actxRecEdge, callAt map[token.Pos]*ast.CallExpr, fil
 		if ok, why := actxGuardedCallerSide(c, info, path, ce); ok {
 			return true, why
 		}
+		if e.from == e.to {
+			if ok, why := actxGuardedAtEntry(info, fd, ce); ok {
+				return true, why
+			}
+		}
 		return false, "the call is not under a failed map-membership test"
 	}
 	// which argument carries the key?
@@ -897,4 +902,104 @@ func actxGuardedCallerSide(c *Ctx, info *types.Info, path []ast.Node, ce *ast.Ca
 		child = n
 	}
 	return false, ""
+}
+
+// actxGuardedAtEntry recognises the visited-set idiom kept at the entry of a
+// self-recursive function:
+//
+//	func f(..., p K, ..., seen map[K]V) {
+//	    if _, ok := seen[p]; ok { return … }   (or: if seen[p] { return … })
+//	    seen[p] = …
+//	    … f(..., q, ..., seen) …
+//
+// Both statements are top-level statements of the body and precede every call
+// back into f; the recursive call hands the same map parameter on. Each
+// activation that gets past the test removes one key from the finite set of
+// unseen keys, which is the measure.
+func actxGuardedAtEntry(info *types.Info, fd *ast.FuncDecl, ce *ast.CallExpr) (bool, string) {
+	params := map[types.Object]int{}
+	idx := 0
+	for _, f := range fd.Type.Params.List {
+		for _, n := range f.Names {
+			params[info.Defs[n]] = idx
+			idx++
+		}
+	}
+	paramOf := func(e ast.Expr) (types.Object, bool) {
+		id, ok := ast.Unparen(e).(*ast.Ident)
+		if !ok {
+			return nil, false
+		}
+		obj := info.Uses[id]
+		_, isParam := params[obj]
+		return obj, isParam
+	}
+	var mapParam, keyParam types.Object
+	tested, inserted := false, false
+	for _, st := range fd.Body.List {
+		if st.Pos() <= ce.Pos() && ce.End() <= st.End() {
+			break
+		}
+		// any earlier call of f itself before the idiom is complete defeats it
+		early := false
+		ast.Inspect(st, func(n ast.Node) bool {
+			if c2, ok := n.(*ast.CallExpr); ok && c2 != ce {
+				if fn := CalleeOf(info, c2); fn != nil && fn == info.Defs[fd.Name] && !(tested && inserted) {
+					early = true
+				}
+			}
+			return true
+		})
+		if early {
+			return false, ""
+		}
+		if ifs, ok := st.(*ast.IfStmt); ok && !tested {
+			var ix *ast.IndexExpr
+			cond := ast.Unparen(ifs.Cond)
+			if x, ok := cond.(*ast.IndexExpr); ok {
+				ix = x
+			} else if id, ok := cond.(*ast.Ident); ok && ifs.Init != nil {
+				if as, ok := ifs.Init.(*ast.AssignStmt); ok && len(as.Lhs) == 2 && len(as.Rhs) == 1 {
+					if okId, ok := as.Lhs[1].(*ast.Ident); ok && okId.Name == id.Name {
+						ix, _ = ast.Unparen(as.Rhs[0]).(*ast.IndexExpr)
+					}
+				}
+			}
+			if ix == nil || len(ifs.Body.List) == 0 {
+				continue
+			}
+			if _, isRet := ifs.Body.List[len(ifs.Body.List)-1].(*ast.ReturnStmt); !isRet {
+				continue
+			}
+			m, okM := paramOf(ix.X)
+			k, okK := paramOf(ix.Index)
+			if okM && okK {
+				if _, isMap := m.Type().Underlying().(*types.Map); isMap {
+					mapParam, keyParam, tested = m, k, true
+				}
+			}
+			continue
+		}
+		if as, ok := st.(*ast.AssignStmt); ok && tested && len(as.Lhs) == 1 {
+			if ix, ok := as.Lhs[0].(*ast.IndexExpr); ok {
+				m, okM := paramOf(ix.X)
+				k, okK := paramOf(ix.Index)
+				if okM && okK && m == mapParam && k == keyParam {
+					inserted = true
+				}
+			}
+		}
+	}
+	if !tested || !inserted {
+		return false, ""
+	}
+	// the recursive call hands the same map on, in the same position
+	mi := params[mapParam]
+	if mi >= len(ce.Args) {
+		return false, ""
+	}
+	if obj, ok := paramOf(ce.Args[mi]); !ok || obj != mapParam {
+		return false, ""
+	}
+	return true, fmt.Sprintf("visited set at entry: `if %s[%s] { return }` and `%s[%s] = …` precede every recursive call, which hands %s on", mapParam.Name(), keyParam.Name(), mapParam.Name(), keyParam.Name(), mapParam.Name())
 }
